@@ -19,7 +19,7 @@ def fixed_cases(tier):
 
 
 def n_generated(tier):
-    return 800 if tier == "quick" else 6000
+    return 300 if tier == "quick" else 6000
 
 
 def strategy(tier):
